@@ -73,7 +73,7 @@ def install(ctx):
     orig_query = cls.intersection
 
     @functools.wraps(orig_init)
-    def init(self, bboxes):
+    def init(self, bboxes, *args, **kwargs):      # signature-agnostic: private extra parameters are allowed
         if mon.depth_init == 0:
             mon.nodes = 0
             mon.registry[id(self)] = list(bboxes)
@@ -82,12 +82,13 @@ def install(ctx):
             raise ConstructionTooLarge()
         mon.depth_init += 1
         try:
-            return orig_init(self, bboxes)
+            return orig_init(self, bboxes, *args, **kwargs)
         finally:
             mon.depth_init -= 1
 
-    def post(self, bbox, result):
-        return mon.post_query(self, bbox, result)
+    def post(_ARGS, _KWARGS, result):        # name-independent: (self, query box)
+        vals = list(_ARGS) + list(_KWARGS.values())
+        return mon.post_query(vals[0], vals[1], result)
 
     checked_query = icontract.ensure(post, error=contracts.ContractError)(orig_query)
 
@@ -138,6 +139,23 @@ def gen_boxes(rng):
                 a = rng.choice(big) * rng.choice((1, -1))
                 boxes.append((a, a, a, a))
         boxes = [(x0, min(yy0, yy1), x1, max(yy0, yy1)) for x0, yy0, x1, yy1 in boxes]
+    elif c < 0.08:
+        # exact numeric types: Fraction or Decimal coordinates (one type per collection), many of them
+        # without an exact binary representation, with shared edges so that queries touch exactly
+        from decimal import Decimal
+        from fractions import Fraction
+        cls = "coordinates given as Fraction / Decimal"
+        use_dec = rng.random() < 0.5
+        n = max(1, min(n, 25))
+
+        def num():
+            k = rng.randint(-30, 30)
+            return Decimal(k) / Decimal(10) if use_dec else Fraction(k, rng.choice((3, 7, 10)))
+        for _ in range(n):
+            x, y = num(), num()
+            w = rng.choice((0, 1, 2, 3)) * (Decimal("0.1") if use_dec else Fraction(1, 3))
+            h = rng.choice((0, 1, 2, 3)) * (Decimal("0.1") if use_dec else Fraction(1, 3))
+            boxes.append((x, y, x + w, y + h))
     elif c < 0.22:
         cls = "integer lattice"
         span = rng.choice((3, 6, 12, 40))
@@ -206,6 +224,19 @@ def gen_query(rng, boxes):
     ally0 = min(b[1][1] for b in boxes)
     allx1 = max(b[1][2] for b in boxes)
     ally1 = max(b[1][3] for b in boxes)
+    if type(allx0).__name__ in ("Decimal", "Fraction"):
+        # queries in the same exact type: touching a stored box by an edge / a corner, equal to it, random
+        one = type(allx0)(1)
+        k = rng.randrange(5)
+        if k == 0:
+            return "exact type: touching by an edge", (xmax, ymin, xmax + one, ymax)
+        if k == 1:
+            return "exact type: touching by a corner", (xmax, ymax, xmax + one, ymax + one)
+        if k == 2:
+            return "exact type: touching from below/left", (xmin - one, ymin - one, xmin, ymax)
+        if k == 3:
+            return "exact type: equal to a stored box", (xmin, ymin, xmax, ymax)
+        return "exact type: covering all", (allx0, ally0, allx1, ally1)
     w, h = max(allx1 - allx0, 1), max(ally1 - ally0, 1)
     if w == float("inf") or h == float("inf") or max(abs(allx0), abs(allx1), abs(ally0), abs(ally1)) > 1e300:
         # extreme collection: keep the query finite (no arithmetic on the extremes)
@@ -359,7 +390,8 @@ def run(ctx):
             ctx.sample({"boxes": boxes[:8], "n_boxes": len(boxes), "query": queries[0]}, tag=cls, per_tag=1)
         one_tree(ctx, mon, cls, boxes, queries)
     ctx.extra["max_nodes_in_one_tree"] = [ctx.extra.get("max_nodes_in_one_tree", 0)]
-    for cls in ("extreme magnitudes (sums overflow)", "query:extreme query", "integer lattice", "strokes (zero-width / zero-height)", "points", "duplicates", "nested",
+    for cls in ("coordinates given as Fraction / Decimal", "query:exact type: touching by an edge",
+                "extreme magnitudes (sums overflow)", "query:extreme query", "integer lattice", "strokes (zero-width / zero-height)", "points", "duplicates", "nested",
                 "shared edges (tiling)", "collinear strokes", "continuous",
                 "query:touching a box by an edge", "query:touching a box by a corner",
                 "query:degenerate query (point)", "query:degenerate query (segment)",
